@@ -520,6 +520,9 @@ def stream_sets(tier):
             ("Kl", "live", "LK", 1, 1, 2, 0, ["o"]),
             ("LF", "bare", "LF", 1, 2, 2, 1, ["o"]),
             ("LFl", "live", "LF", 2, 2, 2, 0, ["o"]),
+            ("No", "live+outer-o", "L5", 1, 2, 2, 0, ["o", "e"]),
+            ("Ne", "live+outer-e", "L5", 1, 2, 2, 0, ["o", "e"]),
+            ("Np", "progress+outer-o", "L5", 1, 1, 2, 0, ["e", "oe"]),
         ]
     return [
         ("A", "bare", "L5", 1, 3, 4, 2, ["o"]),
@@ -537,6 +540,9 @@ def stream_sets(tier):
         ("LF", "bare", "LF", 1, 2, 3, 1, ["o"]),
         ("LF3", "bare", "LF", 3, 3, 2, 0, ["o"]),
         ("LFl", "live", "LF", 1, 2, 2, 1, ["o", "e"]),
+        ("No", "live+outer-o", "L5", 1, 2, 3, 1, ["o", "e", "oe", "eo"]),
+        ("Ne", "live+outer-e", "L5", 1, 2, 3, 1, ["o", "e", "oe", "eo"]),
+        ("Np", "progress+outer-o", "L5", 1, 2, 2, 1, ["o", "e", "oe"]),
     ]
 
 
@@ -820,8 +826,18 @@ def run_history(variant, ops, res=None, case=None):
     saved = (sys.stdout, sys.stderr)
     sys.stdout, sys.stderr = sinks["o"], sinks["e"]
     verdict = None
+    # "<display>+outer-o" / "+outer-e": the display is started while ANOTHER display, on another console, already
+    # redirects stdout only / stderr only (sys.stdout resp. sys.stderr is a FileProxy already, the other is not)
+    variant, _, outer_target = variant.partition("+outer-")
+    outer = None
     try:
         try:
+            if outer_target:
+                from rich.live import Live as _OuterLive
+                outer = _OuterLive("OUT", console=_console(), auto_refresh=False,
+                                   redirect_stdout=outer_target == "o", redirect_stderr=outer_target == "e")
+                outer.start()
+                sinks = dict(sinks, **{outer_target: sys.stdout if outer_target == "o" else sys.stderr})
             if variant == "live":
                 from rich.live import Live
                 cm = Live(MARK, console=console, auto_refresh=False)
@@ -834,7 +850,17 @@ def run_history(variant, ops, res=None, case=None):
                     verdict = ("e2e/not-redirected", "sys.stdout / sys.stderr were not replaced inside the display")
                 else:
                     verdict = step(do_op, observe)
+            if outer is not None:
+                if verdict is None and (sys.stdout is not sinks["o"] or sys.stderr is not sinks["e"]):
+                    verdict = ("e2e/redirect-not-restored", "after the inner display stopped sys.stdout / sys.stderr are not what they were before it started")
+                outer.stop()
+                outer = None
         finally:
+            if outer is not None:
+                try:
+                    outer.stop()
+                except Exception:  # noqa
+                    pass
             sys.stdout, sys.stderr = saved
         if verdict is None and not model.mid_escape:
             cells, breaks = observe()
